@@ -232,16 +232,21 @@ def history(ctx, props):
                     dq = float(round(dq)) or math.copysign(1.0, dq)
                     if p != 0 and kind == "close":
                         dq = -p
+                dq = _avoid_dust(p, dq)
                 bid, ask = led.quotes[c]
                 liq_old = led.liq(c)
                 px = ask if dq > 0 else bid
                 tr = Trade(t, c, dq, ex[c].bid_price, ex[c].ask_price, fees)
                 b.transact(tr)
+                snaps0 = led.snaps
                 cm = led.trade(c, dq, px)
                 p_new = led.pos[c]
                 delta_want = -cm + c.multiplier * (
                     (p_new * led.liq(c) if p_new != 0 else 0.0)
                     - (p * liq_old if p != 0 else 0.0) - dq * px)
+                if led.snaps != snaps0:
+                    delta_want = None      # documented epsilon snap (4.2-a): judged by the identity only
+                    ctx.cat("delta-skipped-epsilon-snap")
                 if "C01" in props:
                     ctx.check("C01:trade-fields", tr.acq_price == px and
                               abs(tr.cost_of_commissions - cm) <= 1e-12 * max(1.0, cm),
@@ -399,6 +404,17 @@ def history(ctx, props):
     return b, led
 
 
+def _avoid_dust(p, dq):
+    """Generators keep real quantities >= 1e-5 (DESIGN 4.2-a): a trade that would
+    leave a residual below that becomes an exact close; an opening trade is at
+    least 1e-4 contracts."""
+    if p == 0 and abs(dq) < 1e-4:
+        return math.copysign(1e-4, dq)
+    if p != 0 and 0 < abs(p + dq) < 1e-5:
+        return -p
+    return dq
+
+
 def twin_spot_future(ctx):
     """C01: 'the same amount for a future as for a spot asset quoted at the
     same prices' - the same trades and quotes applied to a spot-like and to a
@@ -449,6 +465,7 @@ def twin_spot_future(ctx):
                 dq = -p
             else:
                 dq = -p * rng.uniform(1.1, 2.5)
+            dq = _avoid_dust(p, dq)
             kinds.add(kind)
             for c, ex, b in brokers:
                 b.transact(Trade(t, c, dq, ex[c].bid_price, ex[c].ask_price, fees))
